@@ -117,93 +117,4 @@ theorem RLS_lift2 (f1 f2 : T → Option T) : ∀ (q : List Nat) (t t1 t2 S : T),
           refine ⟨⟨by simp, fun _ => rfl, leavesL_set2 c1 c2 e hl.leaves_perm k i⟩, ?_⟩
           exact RS_set2 c1 c2 e hs' hl.leaves_perm hl.isLeaf_eq k i hi
 
-/- ## the local fact -/
-
-theorem oneBranchApart_kids2 {k k' : Kids} (j1 j2 : Nat) (hc : entryOf k j1 ∈ splitsL k)
-    (hp : (entryOf k' j2 :: splitsL k).Perm (entryOf k j1 :: splitsL k'))
-    (he : (entryOf k j1).e = (entryOf k' j2).e) (ht : (entryOf k j1).tip = false) (ht' : (entryOf k' j2).tip = false)
-    (hd : DifferentSplit (entryOf k j1).below (entryOf k' j2).below) : OneBranchApart (splitsL k) (splitsL k') :=
-  oneBranchApart_of (entryOf k j1) (entryOf k' j2) hc hp he ht ht' hd
-
-macro "diff_split3" xu:ident xv:ident xy:ident : tactic => `(tactic|
-  (unfold DifferentSplit
-   first
-   | exact ⟨⟨$xu, by grind, by grind⟩, ⟨$xv, by grind, by grind⟩⟩
-   | exact ⟨⟨$xv, by grind, by grind⟩, ⟨$xu, by grind, by grind⟩⟩
-   | exact ⟨⟨$xu, by grind, by grind⟩, ⟨$xy, by grind, by grind⟩⟩
-   | exact ⟨⟨$xv, by grind, by grind⟩, ⟨$xy, by grind, by grind⟩⟩
-   | exact ⟨⟨$xy, by grind, by grind⟩, ⟨$xu, by grind, by grind⟩⟩
-   | exact ⟨⟨$xy, by grind, by grind⟩, ⟨$xv, by grind, by grind⟩⟩))
-
-macro "central_at2" j1:num j2:num xu:ident xv:ident xy:ident : tactic => `(tactic|
-  (refine oneBranchApart_kids2 $j1 $j2 (by ev_entries; simp) (by ev_entries; perm_entries)
-     (by ev_entries) (by ev_entries) (by ev_entries) ?_
-   ev_entries
-   diff_split3 $xu $xv $xy))
-
-/-- the statement of the local fact for one configuration -/
-def LocalTwin (path : List Nat) (d1 : NodeD) (isRoot : Bool) (p1 : Nat) (k1 : Kids) (j p2 : Nat) : Prop :=
-  (leavesL k1).Nodup →
-    ∀ S1 S2, applyLocal isRoot (newNNI path isRoot p1 j p2 false) (.node d1 p1 k1) = some S1 →
-      applyLocal isRoot (newNNI path isRoot p1 j p2 true) (.node d1 p1 k1) = some S2 → RS S1 S2
-
-set_option maxHeartbeats 2000000 in
-theorem local_twin_root (path : List Nat) (d1 d2 : NodeD) (e eu ev : EdgeD) (tu tv : T)
-    (y z : EdgeD × T) (p1 p2 : Nat) (hp2 : p2 ≤ 2) :
-    LocalTwin path d1 true p1 [(e, T.node d2 p2 [(eu, tu), (ev, tv)]), y, z] 0 p2 ∧
-    LocalTwin path d1 true p1 [y, (e, T.node d2 p2 [(eu, tu), (ev, tv)]), z] 1 p2 ∧
-    LocalTwin path d1 true p1 [y, z, (e, T.node d2 p2 [(eu, tu), (ev, tv)])] 2 p2 := by
-  obtain ⟨xu, hxu⟩ := List.exists_mem_of_ne_nil _ (leaves_ne_nil tu)
-  obtain ⟨xv, hxv⟩ := List.exists_mem_of_ne_nil _ (leaves_ne_nil tv)
-  obtain ⟨ey, ty⟩ := y
-  obtain ⟨ez, tz⟩ := z
-  obtain ⟨xy, hxy⟩ := List.exists_mem_of_ne_nil _ (leaves_ne_nil ty)
-  obtain ⟨xz, hxz⟩ := List.exists_mem_of_ne_nil _ (leaves_ne_nil tz)
-  have h2 : p2 = 0 ∨ p2 = 1 ∨ p2 = 2 := by omega
-  unfold LocalTwin
-  rcases h2 with rfl | rfl | rfl <;>
-    refine ⟨?_, ?_, ?_⟩ <;> intro hnd S1 S2 hS1 hS2 <;> eval_local at hS1 <;> eval_local at hS2 <;>
-    subst hS1 <;> subst hS2 <;>
-    simp only [leavesL, T.leaves, List.append_nil, List.nodup_append, List.mem_append] at hnd <;>
-    unfold RS <;> simp only [T.kids_node] <;>
-    first
-    | central_at2 0 0 xu xv xy
-    | central_at2 1 1 xu xv xy
-    | central_at2 2 2 xu xv xy
-    | central_at2 0 0 xu xv xz
-    | central_at2 1 1 xu xv xz
-    | central_at2 2 2 xu xv xz
-
-set_option maxHeartbeats 2000000 in
-theorem local_twin_nonroot (path : List Nat) (d1 d2 : NodeD) (e eu ev : EdgeD) (tu tv : T)
-    (y : EdgeD × T) (p1 p2 : Nat) (hp1 : p1 ≤ 2) (hp2 : p2 ≤ 2) :
-    LocalTwin path d1 false p1 [(e, T.node d2 p2 [(eu, tu), (ev, tv)]), y] 0 p2 ∧
-    LocalTwin path d1 false p1 [y, (e, T.node d2 p2 [(eu, tu), (ev, tv)])] 1 p2 := by
-  obtain ⟨xu, hxu⟩ := List.exists_mem_of_ne_nil _ (leaves_ne_nil tu)
-  obtain ⟨xv, hxv⟩ := List.exists_mem_of_ne_nil _ (leaves_ne_nil tv)
-  obtain ⟨ey, ty⟩ := y
-  obtain ⟨xy, hxy⟩ := List.exists_mem_of_ne_nil _ (leaves_ne_nil ty)
-  have h1 : p1 = 0 ∨ p1 = 1 ∨ p1 = 2 := by omega
-  have h2 : p2 = 0 ∨ p2 = 1 ∨ p2 = 2 := by omega
-  unfold LocalTwin
-  rcases h1 with rfl | rfl | rfl <;> rcases h2 with rfl | rfl | rfl <;>
-    refine ⟨?_, ?_⟩ <;> intro hnd S1 S2 hS1 hS2 <;> eval_local at hS1 <;> eval_local at hS2 <;>
-    subst hS1 <;> subst hS2 <;>
-    simp only [leavesL, T.leaves, List.append_nil, List.nodup_append, List.mem_append] at hnd <;>
-    unfold RS <;> simp only [T.kids_node] <;>
-    first
-    | central_at2 0 0 xu xv xy
-    | central_at2 1 1 xu xv xy
-    | central_at2 0 1 xu xv xy
-    | central_at2 1 0 xu xv xy
-
-theorem local_twin {path : List Nat} {isRoot : Bool} {p1 : Nat} {k1 : Kids} {j : Nat}
-    {e : EdgeD} {d2 : NodeD} {p2 : Nat} {u v : EdgeD × T} (d1 : NodeD)
-    (s : Site path isRoot p1 k1 j e d2 p2 u v) : LocalTwin path d1 isRoot p1 k1 j p2 := by
-  obtain ⟨eu, tu⟩ := u
-  obtain ⟨ev, tv⟩ := v
-  exact site_cases s (LocalTwin path d1)
-    (fun y z p1 hp2 => local_twin_root path d1 d2 e eu ev tu tv y z p1 p2 hp2)
-    (fun y hp1 hp2 => local_twin_nonroot path d1 d2 e eu ev tu tv y p1 p2 hp1 hp2)
-
 end Gotree.C17
